@@ -3,6 +3,10 @@ import MindsVerif.Lemmas.SlyLexSound
 import MindsVerif.Gen.LexRe_sqlite
 import MindsVerif.Gen.LexRe_mysql
 import MindsVerif.Gen.LexRe_mindsdb
+import MindsVerif.Gen.Reserved
+import MindsVerif.Gen.Lex_sqlite
+import MindsVerif.Gen.Lex_mysql
+import MindsVerif.Gen.Lex_mindsdb
 /-!
 # C04 / C01, identifier half at the level of the live regexes: a plain non-keyword word is ONE `ID` token
 
@@ -214,5 +218,187 @@ theorem C04_kw_examples :
     isKw LexRe_mindsdb.cfg [107, 110, 111, 119, 108, 101, 100, 103, 101, 95, 98, 97, 115, 101] = true ∧
     lex LexRe_mindsdb.cfg [115, 101, 108, 101, 99, 116] = .ok [.tok "SELECT" false [115, 101, 108, 101, 99, 116]] := by
   decide +kernel
+
+/-! ### Φ4 at the regex level: every keyword word is (a case variant of) a reserved word or an `id` alternative -/
+
+def plainChars : List Nat := List.range' 48 10 ++ List.range' 65 26 ++ [95] ++ List.range' 97 26
+
+theorem plain_mem {c : Nat} (h : inSet plainSet c) : c ∈ plainChars := by
+  obtain ⟨r, hr, h1, h2⟩ := h
+  simp only [plainSet, List.mem_cons, List.not_mem_nil, or_false] at hr
+  simp only [plainChars, List.mem_append, List.mem_range', List.mem_cons, List.not_mem_nil, or_false]
+  rcases hr with rfl | rfl | rfl | rfl
+  · left; left; left; exact ⟨c - 48, by omega, by omega⟩
+  · left; left; right; exact ⟨c - 65, by omega, by omega⟩
+  · left; right; omega
+  · right; exact ⟨c - 97, by omega, by omega⟩
+
+/-- ASCII `str.upper()` -/
+def upperA (c : Nat) : Nat := if 97 ≤ c ∧ c ≤ 122 then c - 32 else c
+
+/-- the plain characters of a class all have one upper case: that character -/
+def canonChar (s : CSet) : Option Nat :=
+  match plainChars.filter (fun c => s.mem c) with
+  | [] => none
+  | m0 :: ms => if ms.all (fun x => upperA x == upperA m0) then some (upperA m0) else none
+
+def canonWord : List CSet → Option (List Nat)
+  | [] => some []
+  | s :: ss => match canonChar s, canonWord ss with
+    | some u, some us => some (u :: us)
+    | _, _ => none
+
+theorem canonChar_spec {s : CSet} {u c : Nat} (h : canonChar s = some u) (hc : s.mem c = true) (hp : c ∈ plainChars) :
+    upperA c = u := by
+  unfold canonChar at h
+  have hm : c ∈ plainChars.filter (fun c => s.mem c) := List.mem_filter.mpr ⟨hp, hc⟩
+  cases hf : plainChars.filter (fun c => s.mem c) with
+  | nil => rw [hf] at hm; cases hm
+  | cons m0 ms =>
+    rw [hf] at h hm
+    simp only at h
+    by_cases ha : (ms.all fun x => upperA x == upperA m0) = true
+    · simp only [ha, if_true, Option.some.injEq] at h
+      rcases List.mem_cons.mp hm with h0 | h0
+      · subst h0; exact h
+      · have := (List.all_eq_true.mp ha) c h0
+        simp only [beq_iff_eq] at this
+        rw [this]; exact h
+    · simp [ha] at h
+
+theorem canon_of_match : ∀ (sets : List CSet) (w u : List Nat), canonWord sets = some u → kwMatch sets w = true →
+    (∀ c ∈ w, c ∈ plainChars) → w.map upperA = u := by
+  intro sets
+  induction sets with
+  | nil =>
+    intro w u hcw hm _
+    cases w with
+    | nil => simp only [canonWord, Option.some.injEq] at hcw; subst hcw; rfl
+    | cons c t => simp [kwMatch] at hm
+  | cons s ss ih =>
+    intro w u hcw hm hp
+    cases w with
+    | nil => simp [kwMatch] at hm
+    | cons c t =>
+      simp only [kwMatch, Bool.and_eq_true] at hm
+      unfold canonWord at hcw
+      cases hc : canonChar s with
+      | none => rw [hc] at hcw; simp at hcw
+      | some u0 =>
+        cases hw : canonWord ss with
+        | none => rw [hc, hw] at hcw; simp at hcw
+        | some us =>
+          rw [hc, hw] at hcw
+          simp only [Option.some.injEq] at hcw
+          subst hcw
+          simp only [List.map_cons, List.cons.injEq]
+          exact ⟨canonChar_spec hc hm.1 (hp c List.mem_cons_self),
+            ih t us hw hm.2 fun d hd => hp d (List.mem_cons_of_mem _ hd)⟩
+
+/-- a class without a plain character (the blank of `\bGROUP BY\b`): such a rule matches no plain word -/
+def unmatchable (sets : List CSet) : Bool := sets.any fun s => plainChars.all fun c => !s.mem c
+
+theorem unmatchable_spec : ∀ (sets : List CSet) (w : List Nat), unmatchable sets = true → kwMatch sets w = true →
+    (∀ c ∈ w, c ∈ plainChars) → False := by
+  intro sets
+  induction sets with
+  | nil => intro w h; simp [unmatchable] at h
+  | cons s ss ih =>
+    intro w h hm hp
+    cases w with
+    | nil => simp [kwMatch] at hm
+    | cons c t =>
+      simp only [kwMatch, Bool.and_eq_true] at hm
+      simp only [unmatchable, List.any_cons, Bool.or_eq_true] at h
+      rcases h with h0 | h0
+      · have := (List.all_eq_true.mp h0) c (hp c List.mem_cons_self)
+        simp [hm.1] at this
+      · exact ih t (by simpa [unmatchable] using h0) hm.2 fun d hd => hp d (List.mem_cons_of_mem _ hd)
+
+/-- the obligation the kernel decides: every keyword rule in front of `ID` has one canonical upper-case word, and that word
+is reserved (`get_reserved_words()`) or the rule's token is an `id` alternative of the grammar -/
+def kwReserved (reserved : List (List Nat)) (idAlts : List String) (c : Cfg) : Bool :=
+  match splitAtID c.rules with
+  | none => false
+  | some (pre, _, _) => pre.all fun r =>
+    match kwSets r.re with
+    | none => true
+    | some sets =>
+      unmatchable sets ||
+      match canonWord sets with
+      | none => false
+      | some u => reserved.contains u || idAlts.contains r.name
+
+/-- **Φ4, regex level**: a plain word that a keyword rule matches is, upper-cased, a reserved word — or the keyword is one
+the grammar also accepts as an identifier -/
+theorem C04_kw_reserved (reserved : List (List Nat)) (idAlts : List String) (c : Cfg)
+    (hk : kwReserved reserved idAlts c = true) (w : List Nat) (hw : PlainWord w) (hkw : isKw c w = true) :
+    reserved.contains (w.map upperA) = true ∨
+      ∃ r ∈ c.rules, idAlts.contains r.name = true ∧ ∃ sets, kwSets r.re = some sets ∧ kwMatch sets w = true := by
+  unfold kwReserved at hk
+  unfold isKw at hkw
+  cases hs : splitAtID c.rules with
+  | none => rw [hs] at hk; cases hk
+  | some x =>
+    obtain ⟨pre, idr, post⟩ := x
+    rw [hs] at hk hkw
+    obtain ⟨erules, _⟩ := splitAtID_spec hs
+    obtain ⟨r, hr, hm⟩ := List.any_eq_true.mp hkw
+    have hok := (List.all_eq_true.mp hk) r hr
+    cases hks : kwSets r.re with
+    | none => rw [hks] at hm; cases hm
+    | some sets =>
+      rw [hks] at hm hok
+      simp only [Bool.or_eq_true] at hm hok
+      have hpl : ∀ d ∈ w, d ∈ plainChars := fun d hd => plain_mem (hw.1 d hd)
+      rcases hok with hun | hok
+      · exact (unmatchable_spec sets w hun hm hpl).elim
+      · cases hcw : canonWord sets with
+        | none => rw [hcw] at hok; cases hok
+        | some u =>
+          rw [hcw] at hok
+          simp only [Bool.or_eq_true] at hok
+          have hu := canon_of_match sets w u hcw hm hpl
+          rcases hok with h1 | h2
+          · left; rw [hu]; exact h1
+          · right
+            exact ⟨r, by rw [erules]; exact List.mem_append_left _ hr, h2, sets, hks, hm⟩
+
+def reservedN : List (List Nat) := Reserved.wordsC.map fun w => w.map Char.toNat
+
+theorem kwReserved_sqlite : kwReserved reservedN Lex_sqlite.idAlts LexRe_sqlite.cfg = true := by decide +kernel
+theorem kwReserved_mysql : kwReserved reservedN Lex_mysql.idAlts LexRe_mysql.cfg = true := by decide +kernel
+theorem kwReserved_mindsdb : kwReserved reservedN Lex_mindsdb.idAlts LexRe_mindsdb.cfg = true := by decide +kernel
+
+/-- **the printer's condition suffices** (single-part identifiers, live lexers): a word that `parts_to_str` prints without
+back-quotes — plain, upper case not reserved — comes back from the lexer as one `ID` token, unless it is a keyword that the
+grammar itself accepts in `id` position -/
+theorem C04_unquoted_word (reserved : List (List Nat)) (idAlts : List String) (c : Cfg) (hc : classOK c = true)
+    (hk : kwReserved reserved idAlts c = true) (w : List Nat) (hw : PlainWord w)
+    (hr : reserved.contains (w.map upperA) = false) :
+    lex c w = .ok [.tok "ID" false w] ∨
+      ∃ r ∈ c.rules, idAlts.contains r.name = true ∧ ∃ sets, kwSets r.re = some sets ∧ kwMatch sets w = true := by
+  cases hkw : isKw c w with
+  | false => left; exact C04_word_is_ID c hc w hw hkw
+  | true =>
+    rcases C04_kw_reserved reserved idAlts c hk w hw hkw with h | h
+    · rw [hr] at h; cases h
+    · right; exact h
+
+theorem C04_unquoted_word_mindsdb (w : List Nat) (hw : PlainWord w) (hr : reservedN.contains (w.map upperA) = false) :
+    lex LexRe_mindsdb.cfg w = .ok [.tok "ID" false w] ∨
+      ∃ r ∈ LexRe_mindsdb.cfg.rules, Lex_mindsdb.idAlts.contains r.name = true ∧
+        ∃ sets, kwSets r.re = some sets ∧ kwMatch sets w = true :=
+  C04_unquoted_word _ _ _ classOK_mindsdb kwReserved_mindsdb w hw hr
+theorem C04_unquoted_word_mysql (w : List Nat) (hw : PlainWord w) (hr : reservedN.contains (w.map upperA) = false) :
+    lex LexRe_mysql.cfg w = .ok [.tok "ID" false w] ∨
+      ∃ r ∈ LexRe_mysql.cfg.rules, Lex_mysql.idAlts.contains r.name = true ∧
+        ∃ sets, kwSets r.re = some sets ∧ kwMatch sets w = true :=
+  C04_unquoted_word _ _ _ classOK_mysql kwReserved_mysql w hw hr
+theorem C04_unquoted_word_sqlite (w : List Nat) (hw : PlainWord w) (hr : reservedN.contains (w.map upperA) = false) :
+    lex LexRe_sqlite.cfg w = .ok [.tok "ID" false w] ∨
+      ∃ r ∈ LexRe_sqlite.cfg.rules, Lex_sqlite.idAlts.contains r.name = true ∧
+        ∃ sets, kwSets r.re = some sets ∧ kwMatch sets w = true :=
+  C04_unquoted_word _ _ _ classOK_sqlite kwReserved_sqlite w hw hr
 
 end MindsVerif.Props.C04Lex
